@@ -5,7 +5,7 @@ import os
 VERIF = os.path.abspath(os.path.join(os.path.dirname(os.path.abspath(__file__)), '..'))
 
 # --------------------------------------------------------------------------- TLC engines
-CORE_OPS = {"new", "clone", "clonef", "drop", "set", "clear", "mark", "collect", "unwrap", "fagain"}
+CORE_OPS = {"new", "clone", "clonef", "drop", "set", "clear", "mark", "collect", "unwrap", "fagain", "put", "take"}
 BASE = dict(N=3, NS=2, NP=0, NW=0, FIN=True, WEAK=True, DBG=True, MAXRC=100, MaxRoots=2, MaxWRoots=0,
             MaxOps=6, MaxFaults=0, MaxTraceK=0, BUG_STALE_TC=False, BUG_NESTED_FLAGS=False, OPS=CORE_OPS)
 
@@ -28,6 +28,11 @@ ENGINES = {
     'nofin': _eng('nofin', dict(FIN=False, MaxOps=5, OPS=CORE_OPS - {"fagain"}), dict(MaxOps=7), {'quick': ['nofin-rel'], 'thorough': ['nofin-dev', 'nofin-rel']}),
     # one injected panic at every callback invocation (trace k-th, finalize, drop)
     'fault': _eng('fault', dict(MaxOps=6, MaxFaults=1, MaxTraceK=3, N=3), dict(MaxOps=7), {'quick': ['all-dev'], 'thorough': ['all-dev', 'all-rel']}),
+    # weak pointers: downgrade / upgrade / Weak clone / Weak drop / weak fields, upgrades from finalizers and destructors
+    'weak': _eng('weak', dict(N=2, NS=1, NW=1, MaxOps=7, MaxWRoots=2, OPS={"new", "clone", "drop", "set", "clear", "collect", "unwrap", "downgrade", "upgrade", "upgradef", "clonew", "dropw", "setw", "clearw", "put"}),
+                 dict(MaxOps=8), {'quick': ['all-dev'], 'thorough': ['all-dev', 'all-rel', 'nofin-rel']}),
+    'weaknofin': _eng('weaknofin', dict(N=2, NS=1, NW=1, FIN=False, MaxOps=6, MaxWRoots=2, MaxFaults=1, MaxTraceK=2, OPS={"new", "clone", "drop", "set", "collect", "unwrap", "downgrade", "upgrade", "upgradef", "dropw", "setw"}),
+                 dict(MaxOps=7), {'quick': ['nofin-rel'], 'thorough': ['nofin-dev', 'nofin-rel']}),
     'faultnofin': _eng('faultnofin', dict(FIN=False, MaxOps=5, MaxFaults=1, MaxTraceK=3, OPS=CORE_OPS - {"fagain"}), dict(MaxOps=7), {'quick': ['nofin-rel'], 'thorough': ['nofin-dev', 'nofin-rel']}),
 }
 
@@ -58,7 +63,7 @@ def graph_conformance(tier, seed):
 GRAPH_PROPS = ['C01', 'C02', 'C03', 'C04', 'C05', 'C06', 'C07', 'C08', 'C09', 'C11', 'C12', 'C13']
 
 
-GRAPH_ENGINES = ['core', 'pin', 'nofin', 'fault', 'faultnofin']
+GRAPH_ENGINES = ['core', 'pin', 'nofin', 'fault', 'faultnofin', 'weak', 'weaknofin']
 
 
 def plan(pid, tier, seed):
